@@ -42,3 +42,11 @@ impl LuaIndex for LuaMetatableIndex {
         self.metatables.clear();
     }
 }
+
+#[cfg(emmyluals_emmylua_analyzer_rust_verif)]
+impl LuaMetatableIndex {
+    /// Verification hook: entry counts of every container of this index.
+    pub fn verif_sizes(&self) -> Vec<(&'static str, usize)> {
+        vec![("metatables", self.metatables.len())]
+    }
+}
